@@ -428,6 +428,7 @@ class FnSpec:
         self.before = []
         self.after = []
         self.entry = ""
+        self.exit = ""
         self.closures = {}
         self.opts = {}
 
@@ -466,8 +467,12 @@ def name_return(sig: str, ret_name: str) -> str:
     return sig[:ts] + "(%s: %s)" % (ret_name, ty) + ("\n" if not wm else " ") + tail.lstrip(" ")
 
 
-def apply_fn_spec(text: str, spec: FnSpec, what: str):
-    """text = `fn ... { body }` (already rewritten).  Returns annotated text."""
+def apply_fn_spec(text: str, spec: FnSpec, what: str, lost=None):
+    """text = `fn ... { body }` (already rewritten).  Returns annotated text.
+    A proof *hint* (before/after/loop/closure text) whose anchor no longer exists is skipped and
+    recorded in `lost` (the unit is then `degraded`: a failing obligation needs a concrete replay
+    before it is reported)."""
+    lost = lost if lost is not None else []
     m = mask(text)
     bo = find_body_open(m, 0)
     if bo < 0:
@@ -485,17 +490,34 @@ def apply_fn_spec(text: str, spec: FnSpec, what: str):
         ins.append((1, "\n" + spec.entry.rstrip() + "\n"))
     for anchor, g in spec.before:
         check_ghost_only(g, what + " before " + anchor)
-        ls, _ = statement_start_of(body, bm, anchor, what)
+        if anchor == "@return":
+            for mm in re.finditer(r"(?m)^[ \t]*return\b", bm):
+                ins.append((mm.start(), g.rstrip() + "\n"))
+            continue
+        try:
+            ls, _ = statement_start_of(body, bm, anchor, what)
+        except ScanError as e:
+            lost.append(str(e))
+            continue
         ins.append((ls, g.rstrip() + "\n"))
     for anchor, g in spec.after:
         check_ghost_only(g, what + " after " + anchor)
-        _, i = statement_start_of(body, bm, anchor, what)
+        try:
+            _, i = statement_start_of(body, bm, anchor, what)
+        except ScanError as e:
+            lost.append(str(e))
+            continue
         e = statement_end_from(bm, i)
         ins.append((e, "\n" + g.rstrip()))
+    if spec.exit.strip():
+        check_ghost_only(spec.exit, what + " exit")
+        # end of a unit-returning body: just before the closing brace
+        ins.append((len(body.rstrip()) - 1, spec.exit.rstrip() + "\n"))
     lps = loops_in(bm, 0, len(bm))
     for k, ltxt in spec.loops.items():
         if k >= len(lps):
-            raise ScanError("lost anchor: loop %d in %s (%d loops)" % (k, what, len(lps)))
+            lost.append("lost anchor: loop %d in %s (%d loops)" % (k, what, len(lps)))
+            continue
         lbo = find_body_open(bm, lps[k])
         if re.search(r"\b(assume|admit)\s*\(", mask(ltxt)):
             raise Unsupported("assume/admit in loop contract of " + what)
@@ -503,7 +525,8 @@ def apply_fn_spec(text: str, spec: FnSpec, what: str):
     cls = closures_in(bm, 0, len(bm))
     for k, (head, ens) in spec.closures.items():
         if k >= len(cls):
-            raise ScanError("lost anchor: closure %d in %s (%d closures)" % (k, what, len(cls)))
+            lost.append("lost anchor: closure %d in %s (%d closures)" % (k, what, len(cls)))
+            continue
         a, b = cls[k]
         after = bm[b:]
         ws = len(after) - len(after.lstrip())
@@ -608,6 +631,7 @@ class Unit:
         self.fn_obls = {}
         self.rewrites = {}
         self.functions = []  # unit-level fn names that carry contracts
+        self.degraded = {}  # fn name -> lost hint anchors
 
     def emit(self, text: str, origin):
         for ln in text.split("\n"):
@@ -647,7 +671,7 @@ def build_unit(unit_name: str, reach: bool = False, mutate=None) -> Unit:
             include(d.split(None, 1)[1].strip())
             i += 1
         elif kind in ("struct", "enum", "const", "trait", "type"):
-            segs = [x.strip() for x in d.split("::")]
+            segs = [x.strip() for x in split_top(d)]
             head = segs[0].split()
             fpath, name = head[1], head[2]
             opts = parse_opts(segs[1:])
@@ -681,6 +705,8 @@ def build_unit(unit_name: str, reach: bool = False, mutate=None) -> Unit:
                     spec.after.append((cur[1], txt))
                 elif cur[0] == "entry":
                     spec.entry = txt
+                elif cur[0] == "exit":
+                    spec.exit = txt
                 elif cur[0] == "closure":
                     spec.closures[int(cur[1])] = (cur[2], txt)
                 cur, buf = None, []
@@ -702,6 +728,8 @@ def build_unit(unit_name: str, reach: bool = False, mutate=None) -> Unit:
                         cur = ("spec",)
                     elif k2 == "entry":
                         cur = ("entry",)
+                    elif k2 == "exit":
+                        cur = ("exit",)
                     elif k2 == "loop":
                         cur = ("loop", d2.split()[1])
                     elif k2 in ("before", "after"):
@@ -831,7 +859,14 @@ def emit_fn(u: Unit, fpath, impl_pat, name, spec: FnSpec, reach: bool, mutate):
         t = mutate(fpath, name, t)
     if reach:
         spec.entry = (spec.entry + "\nproof { assert(false); } // REACH " + name).strip("\n")
-    t = apply_fn_spec(t, spec, what)
+    lost = []
+    t0 = t
+    t = apply_fn_spec(t0, spec, what, lost)
+    if lost:
+        # hints may build on each other: when one anchor is gone, drop every statement-anchored hint
+        u.degraded.setdefault(spec.opts.get("as", name), []).extend(lost)
+        spec.before, spec.after, spec.exit = [(a, g) for (a, g) in spec.before if a == "@return" and False], [], ""
+        t = apply_fn_spec(t0, spec, what, [])
     u.emit("// ---- extracted: %s  [%s] ----" % (what, ", ".join(rw.applied)), ("spec", "marker"))
     if header is not None:
         hrw = Rewriter(header, what)
